@@ -9,6 +9,31 @@ import HtmlVerif.Spec.Paths
 namespace HtmlVerif.Holds
 open HtmlVerif
 
+/-! ### verdicts: held / violated / violated in the one way recorded as finding F-C12 -/
+
+/-- `known`: every clause holds except that a URL whose `[prefix/]name[-version]` part contains a character a URL
+    reader interprets (`urlSpecial`) — written exactly in the format clause 1 prescribes — does not decode to the copied
+    file (`C12_urls_resolve_full_is_false`) -/
+inductive Verdict
+  | ok | known | fail
+  deriving DecidableEq, Repr
+
+def Verdict.and : Verdict → Verdict → Verdict
+  | .fail, _ => .fail
+  | _, .fail => .fail
+  | .known, _ => .known
+  | _, .known => .known
+  | .ok, .ok => .ok
+
+def Verdict.ofBool (b : Bool) : Verdict := if b then .ok else .fail
+
+def Verdict.all {α} (l : List α) (f : α → Verdict) : Verdict := l.foldl (fun v x => v.and (f x)) .ok
+
+def Verdict.enc : Verdict → String
+  | .ok => "T"
+  | .known => "KNOWN url-special"
+  | .fail => "F"
+
 /-! ### decidable forms of the guards -/
 
 def apartB (a b : Path) : Bool := !a.isPrefixOf b && !b.isPrefixOf a
@@ -39,7 +64,7 @@ def holdsPathMap (d : DepInfo) (lp : Option Str) (iv : Bool) (src href : Str) : 
   | .subdir _ _ abs =>
     src == abs && ((dirName d iv).head? == some '/' || href == hrefBaseSpec lp (dirName d iv))
 
-/-- the closed form the theorems give for the URL of path `p` (none when a guard fails) -/
+/-- the closed form clause 1 gives for the URL of path `p` (none outside the statement's domain) -/
 def closedUrl (d : DepInfo) (lp : Option Str) (iv : Bool) (p : Str) : Option Str :=
   match d.source with
   | .none => none
@@ -48,47 +73,52 @@ def closedUrl (d : DepInfo) (lp : Option Str) (iv : Bool) (p : Str) : Option Str
       some (if h.getLast? = some '/' then h ++ quote p else h ++ '/' :: quote p)
     else none
   | .subdir .. =>
-    if SafeSeg (dirName d iv) && CleanRel p then some (hrefBaseSpec lp (dirName d iv) ++ '/' :: quote p)
+    if WideSeg (dirName d iv) && CleanRel p then some (hrefBaseSpec lp (dirName d iv) ++ '/' :: quote p)
     else none
 
-/-- one URL produced by the implementation for the listed path `p` -/
-def holdsUrl (d : DepInfo) (lp : Option Str) (iv : Bool) (p : Str) (url : Str) : Bool :=
-  (match closedUrl d lp iv p with
-    | some u => url == u
-    | none => true)
-  && (if isLocal d && SafeSeg (dirName d iv) && CleanRel p && CleanDirOpt lp then
-        relRefOk url && segs (unquoteB url) == segsOpt lp ++ [utf8 (dirName d iv)] ++ segs (utf8 p)
-      else true)
+/-- one URL produced by the implementation for the listed path `p`: clause 1 (the format) and clause 2 (decodes to
+    `libdir/name[-version]/p`) **without the character guards** — any relative `lp`, any single-component name -/
+def holdsUrl (d : DepInfo) (lp : Option Str) (iv : Bool) (p : Str) (url : Str) : Verdict :=
+  match closedUrl d lp iv p with
+  | none => .ok
+  | some u =>
+    if url != u then .fail
+    else if isLocal d && WideDirOpt lp then
+      if agreeFull lp (dirName d iv) p url then .ok
+      else if urlSpecial (hrefBaseSpec lp (dirName d iv)) then .known
+      else .fail
+    else .ok
 
-def holdsUrlList (d : DepInfo) (lp : Option Str) (iv : Bool) (k : Str) (orig out : List KVs) : Bool :=
-  orig.length == out.length &&
-  (orig.zip out).all fun (s, s') =>
+def holdsUrlList (d : DepInfo) (lp : Option Str) (iv : Bool) (k : Str) (orig out : List KVs) : Verdict :=
+  if orig.length != out.length then .fail else
+  Verdict.all (orig.zip out) fun (s, s') =>
     match alookup k s, alookup k s' with
     | some p, some u => holdsUrl d lp iv p u
-    | _, _ => false
+    | _, _ => .fail
 
-def holdsDict (d : DepInfo) (lp : Option Str) (iv : Bool) (scripts sheets : List KVs) : Bool :=
-  holdsUrlList d lp iv dtKSrc d.script scripts && holdsUrlList d lp iv dtKHref d.stylesheet sheets
-    && sheets.all isStylesheetKV
+def holdsDict (d : DepInfo) (lp : Option Str) (iv : Bool) (scripts sheets : List KVs) : Verdict :=
+  ((holdsUrlList d lp iv dtKSrc d.script scripts).and (holdsUrlList d lp iv dtKHref d.stylesheet sheets)).and
+    (Verdict.ofBool (sheets.all isStylesheetKV))
 
-/-- the `link` / `script` tags of `as_html_tags` carry the same URLs (as plain, i.e. later escaped, attribute values) -/
-def holdsTags (d : DepInfo) (lp : Option Str) (iv : Bool) (tags : Nodes) : Bool :=
+/-- the `link` / `script` tags of `as_html_tags` carry the same URLs (as plain, i.e. later escaped, attribute values):
+    `asHtmlTags_urls` / `C12_head_urls` -/
+def holdsTags (d : DepInfo) (lp : Option Str) (iv : Bool) (tags : Nodes) : Verdict :=
   let attrOf (name key : Str) : List (Option AttrVal) :=
     tags.toList.filterMap fun n =>
       match n with
       | .tag nm _ attrs _ => if nm = name then some (alookup key attrs) else none
       | _ => none
-  let ok (k : Str) (orig : List KVs) (got : List (Option AttrVal)) : Bool :=
+  let ok (k : Str) (orig : List KVs) (got : List (Option AttrVal)) : Verdict :=
     -- the head may contribute further tags of the same name after ours: compare the first |orig| of them
-    orig.length ≤ got.length &&
-    (orig.zip got).all fun (s, a) =>
+    if got.length < orig.length then .fail else
+    Verdict.all (orig.zip got) fun (s, a) =>
       match alookup k s, a with
       | some p, some (.plain u) =>
         -- a key that normalises to the same attribute name would be merged into it: outside the statement
-        if (s.filter fun kv => normAttrName kv.1 == k).length == 1 then holdsUrl d lp iv p u else true
-      | some _, _ => (s.filter fun kv => normAttrName kv.1 == k).length != 1
-      | none, _ => false
-  ok dtKHref d.stylesheet (attrOf nLink dtKHref) && ok dtKSrc d.script (attrOf nScript dtKSrc)
+        if SoleKey k s then holdsUrl d lp iv p u else .ok
+      | some _, _ => Verdict.ofBool (!SoleKey k s)
+      | none, _ => .fail
+  (ok dtKHref d.stylesheet (attrOf nLink dtKHref)).and (ok dtKSrc d.script (attrOf nScript dtKSrc))
 
 /-! ### copy_to (C12_copy_ok, C12_copy_ok_all, C12_copy_missing, C12_copy_keyerror, C12_no_copy) -/
 
@@ -138,20 +168,32 @@ def holdsCopy (d : DepInfo) (path : Str) (iv : Bool) (fs0 : FS) (status : Option
     | .ready =>
       status == none && targetOk d (srcDir d) (tgtDir d path iv) fs0 fs'
         && frameOk [tgtDir d path iv] [] fs0 fs'
-    | .missing => status == some .exception && fsEq fs0 fs'
+    | .missing => status.isSome && fsEq fs0 fs'      -- "raises": any exception
     | .keyError e => status == some e && fsEq fs0 fs'
     | .outside => true
 
-/-! ### save_html (C12_save, C12_save_urls, C12_save_fail, C12_save_receivers) -/
+/-- the atomicity clause on the **real** directory tree (directories, names, contents compared before and after
+    by the harness): `raised` / `same` are what was observed.  A listed file missing ⇒ raised, and nothing at all
+    differs; URL-sourced and source-less dependencies ⇒ returned, and nothing differs. -/
+def holdsAtomic (d : DepInfo) (path : Str) (iv : Bool) (fs0 : FS) (raised same : Bool) : Bool :=
+  if !isLocal d then !raised && same
+  else match readiness d path iv fs0 with
+    | .missing => raised && same
+    | .keyError _ => raised && same
+    | .ready => !raised
+    | .outside => true
+
+/-! ### save_html (C12_save_doc, C12_save_urls, C12_save_fail) -/
 
 def localDeps (deps : List DepInfo) : List DepInfo := deps.filter isLocal
 
-/-- the guards of `C12_save_urls` that do not concern a single dependency's readiness -/
+/-- the guards of `C12_save_doc` that do not concern a single dependency's readiness — with the character guards
+    widened to *any* relative libdir and *any* single-component name (finding F-C12 lives in the difference) -/
 def saveGuards (deps : List DepInfo) (fileAbs : Str) (libdir : Option Str) (iv : Bool) (fs : FS) : Bool :=
   let dest := destDir fileAbs libdir
   let ls := localDeps deps
-  CleanDirOpt libdir
-    && ls.all (fun d => SafeSeg (dirName d iv))
+  WideDirOpt libdir
+    && ls.all (fun d => WideSeg (dirName d iv))
     && decide ((deps.map fun d => dirName d iv).Nodup)
     && ls.all (fun a => ls.all fun b => apartB (srcDir a) (tgtDir b dest iv))
     && ls.all (fun d => apartB (pathResolve fileAbs) (tgtDir d dest iv))
@@ -161,19 +203,20 @@ def saveGuards (deps : List DepInfo) (fileAbs : Str) (libdir : Option Str) (iv :
 def listedInOrder (d : DepInfo) : List Str :=
   d.stylesheet.filterMap (alookup dtKHref) ++ d.script.filterMap (alookup dtKSrc)
 
-/-- every URL the theorems predict occurs in the file, and resolves to a byte-identical copy -/
-def urlsOk (d : DepInfo) (fileAbs : Str) (libdir : Option Str) (iv : Bool) (urls : List Str) (fs0 fs' : FS) : Bool :=
-  (listedInOrder d).all fun p =>
+/-- every URL clause 1 predicts occurs in the file, and resolves to a byte-identical copy -/
+def urlsOk (d : DepInfo) (fileAbs : Str) (libdir : Option Str) (iv : Bool) (urls : List Str) (fs0 fs' : FS) : Verdict :=
+  Verdict.all (listedInOrder d) fun p =>
     match closedUrl d libdir iv p with
-    | none => true
+    | none => .ok
     | some u =>
-      urls.contains u &&
-      (if isLocal d then
-        relRefOk u &&
-        (!wantedB d (segs (utf8 p)) ||
-          (fs'.read (resolveRef (pathResolve (dirname fileAbs)) u) == fs0.read (srcDir d ++ segs (utf8 p))
-            && (d.allFiles || (fs'.read (resolveRef (pathResolve (dirname fileAbs)) u)).isSome)))
-      else true)
+      if !urls.contains u then .fail
+      else if !isLocal d then .ok
+      else if !wantedB d (segs (utf8 p)) then Verdict.ofBool (relRefOk u)
+      else
+        let viaUrl := fs'.read (resolveRef (pathResolve (dirname fileAbs)) u)
+        if relRefOk u && viaUrl == fs0.read (srcDir d ++ segs (utf8 p)) && (d.allFiles || viaUrl.isSome) then .ok
+        else if urlSpecial (hrefBaseSpec libdir (dirName d iv)) then .known
+        else .fail
 
 def isOk (status : Except Err Str) (v : Str) : Bool :=
   match status with
@@ -185,13 +228,18 @@ def isErr (status : Except Err Str) (e : Err) : Bool :=
   | .ok _ => false
   | .error x => x == e
 
+def isAnyErr (status : Except Err Str) : Bool :=
+  match status with
+  | .ok _ => false
+  | .error _ => true
+
 def holdsSave (deps : List DepInfo) (file fileAbs : Str) (libdir : Option Str) (iv : Bool) (html : Str) (fs0 : FS)
-    (status : Except Err Str) (urls : List Str) (fs' : FS) : Bool :=
-  if !saveGuards deps fileAbs libdir iv fs0 then true else
+    (status : Except Err Str) (urls : List Str) (fs' : FS) : Verdict :=
+  if !saveGuards deps fileAbs libdir iv fs0 then .ok else
   let dest := destDir fileAbs libdir
   let F := pathResolve fileAbs
   let rs := deps.map fun d => (d, readiness d dest iv fs0)
-  if rs.any (fun x => x.2 == .outside) then true else
+  if rs.any (fun x => x.2 == .outside) then .ok else
   -- dependencies up to the first one that cannot be copied
   let done := rs.takeWhile (fun x => x.2 == .ready)
   let rest := rs.dropWhile (fun x => x.2 == .ready)
@@ -199,18 +247,19 @@ def holdsSave (deps : List DepInfo) (file fileAbs : Str) (libdir : Option Str) (
   let copiedOk := doneLocal.all fun d => targetOk d (srcDir d) (tgtDir d dest iv) fs0 fs'
   match rest with
   | [] =>
-    -- C12_save_urls
-    isOk status file
+    -- C12_save_doc
+    (Verdict.ofBool (isOk status file
       && fs'.read F == some (utf8 html)
       && copiedOk
-      && deps.all (fun d => urlsOk d fileAbs libdir iv urls fs0 fs')
-      && frameOk (doneLocal.map fun d => tgtDir d dest iv) [F] fs0 fs'
+      && frameOk (doneLocal.map fun d => tgtDir d dest iv) [F] fs0 fs')).and
+    (Verdict.all deps fun d => urlsOk d fileAbs libdir iv urls fs0 fs')
   | (bad, r) :: _ =>
-    -- C12_save_fail + C12_copy_missing: same error, earlier copies made, the failing target and the file untouched
-    isErr status (match r with | .keyError e => e | _ => .exception)
+    -- C12_save_fail + C12_copy_missing: an error (the same KeyError), earlier copies made, the failing target and the
+    -- file untouched
+    Verdict.ofBool ((match r with | .keyError e => isErr status e | _ => isAnyErr status)
       && copiedOk
       && subtreeSame (tgtDir bad dest iv) fs0 fs'
-      && frameOk (doneLocal.map fun d => tgtDir d dest iv) [] fs0 fs'
+      && frameOk (doneLocal.map fun d => tgtDir d dest iv) [] fs0 fs')
 
 /-! ### which clause of the statement an input exercises (reported in the evidence, so that vacuous passes show) -/
 
@@ -235,7 +284,7 @@ def classSave (deps : List DepInfo) (fileAbs : Str) (libdir : Option Str) (iv : 
 def classUrl (d : DepInfo) (lp : Option Str) (iv : Bool) : String :=
   let ps := d.stylesheet.filterMap (alookup dtKHref) ++ d.script.filterMap (alookup dtKSrc)
   let closed := (ps.filter fun p => (closedUrl d lp iv p).isSome).length
-  let agree := (ps.filter fun p => isLocal d && SafeSeg (dirName d iv) && CleanRel p && CleanDirOpt lp).length
+  let agree := (ps.filter fun p => isLocal d && WideSeg (dirName d iv) && CleanRel p && WideDirOpt lp).length
   s!"{ps.length} {closed} {agree}"
 
 end HtmlVerif.Holds
